@@ -86,6 +86,18 @@ def run(lines, out, args):
             elif f[0] == "memall":
                 A = operand(f[1])
                 got = " ".join(str(k) for k in sorted(ifs) if k and ((ifs[k] in A) if not isinstance(A, InterfaceClass) else ifs[k] is A))
+            elif f[0] == "flat":
+                # flat A | flat c2 | flat A + B | flat A - B : the interfaces of X.flattened(), in the order yielded (0 = Interface)
+                def fop(n):
+                    return implementedBy(classes[int(n[1:])]) if n[0] == "c" and n[1:].isdigit() else operand(n)
+                A = fop(f[1])
+                if len(f) == 4:
+                    B = fop(f[3])
+                    A = (A + B) if f[2] == "+" else (A - B)
+                fl = list(A.flattened())
+                got = ids(fl)
+                if fl != list(A.__iro__) or [x for x in fl if not isinstance(x, InterfaceClass)]:
+                    got += " FLAT-NOT-IRO"
             elif f[0] == "mem":
                 got = "1" if ifs[int(f[2])] in operand(f[1]) else "0"
             elif f[0] in ("sub", "add"):
